@@ -250,6 +250,19 @@ pub fn build_base(b: &BaseEvent) -> BuiltEvent {
                         }
                     }
                 }
+                // samples that look like the format's own markers (the end-of-data word 0xCCCCCCCC is two
+                // samples of -13108; also 0x0000 / 0xFFFF pairs): sample data is opaque i16
+                if (b.seed ^ cid.wrapping_mul(0x85EB_CA6B)) % 13 == 0 && samples.len() >= 8 {
+                    let v: i16 = [-13108i16, -13108, 0, -1][(cid % 4) as usize];
+                    let at = 2 * ((cid as usize / 4) % (samples.len() / 2 - 1));
+                    samples[at] = v;
+                    samples[at + 1] = v;
+                    if cid % 8 == 1 {
+                        for x in samples.iter_mut() {
+                            *x = v;
+                        }
+                    }
+                }
                 PwbChannel { readout_index: readout_of_pad_channel(pc), count_field: None, samples }
             })
             .collect();
